@@ -447,12 +447,13 @@ impl Inst for ListenerInst {
     }
 }
 
-/// client endpoint; open_bi / open_uni blocked on the peer's stream limit (LocalStreamIds through DataStreams).
-/// No close: what a failing connection does to a pending open belongs to C17.
+/// client endpoint; open_bi / open_uni blocked on the peer's stream limit (LocalStreamIds through DataStreams);
+/// a failing connection ends the pending open with its error
 struct OpenInst {
     end: End,
     dir: Dir,
     max: u64,
+    closed: bool,
 }
 impl Inst for OpenInst {
     fn consume(&self) -> bool {
@@ -473,11 +474,25 @@ impl Inst for OpenInst {
         })
     }
     fn set(&mut self) -> Option<()> {
+        if self.closed {
+            return None;
+        }
         self.max += 1;
         self.end.streams.recv_frame(StreamCtlFrame::MaxStreams(MaxStreamsFrame::with(self.dir, v(self.max)))).ok().map(|_| ())
     }
     fn touch(&mut self) -> Option<()> {
+        if self.closed {
+            return None;
+        }
         self.end.streams.recv_frame(StreamCtlFrame::MaxStreams(MaxStreamsFrame::with(self.dir, v(self.max)))).ok().map(|_| ())
+    }
+    fn close(&mut self) -> Option<()> {
+        if self.closed {
+            return None;
+        }
+        self.closed = true;
+        self.end.streams.on_conn_error(&conn_error());
+        Some(())
     }
 }
 
@@ -487,7 +502,7 @@ fn listener(dir: Dir) -> Box<dyn Inst> {
 }
 fn opener(dir: Dir) -> Box<dyn Inst> {
     let end = endpoint(Role::Client, PeerLimits { streams_bidi: 0, streams_uni: 0, data_bidi_remote: 100, data_bidi_local: 100, data_uni: 100 });
-    Box::new(OpenInst { end, dir, max: 0 })
+    Box::new(OpenInst { end, dir, max: 0, closed: false })
 }
 
 pub fn specs() -> Vec<Spec> {
@@ -516,8 +531,8 @@ pub fn specs() -> Vec<Spec> {
         Spec { name: "Listener/accept_uni", classes: SLOT1, make: || listener(Dir::Uni),
                binds: "poll = accept_uni().poll; set = peer opens the next unidirectional stream; close = on_conn_error" },
         Spec { name: "DataStreams/open_bi", classes: &["slot2"], make: || opener(Dir::Bi),
-               binds: "peer limit 0; poll = open_bi().poll; set = MAX_STREAMS(+1); touch = MAX_STREAMS(same)" },
+               binds: "peer limit 0; poll = open_bi().poll; set = MAX_STREAMS(+1); touch = MAX_STREAMS(same); close = DataStreams::on_conn_error" },
         Spec { name: "DataStreams/open_uni", classes: &["slot2"], make: || opener(Dir::Uni),
-               binds: "peer limit 0; poll = open_uni().poll; set = MAX_STREAMS(+1); touch = MAX_STREAMS(same)" },
+               binds: "peer limit 0; poll = open_uni().poll; set = MAX_STREAMS(+1); touch = MAX_STREAMS(same); close = DataStreams::on_conn_error" },
     ]
 }
